@@ -24,7 +24,22 @@ def translate(ctx):
 
 def explore(ctx):
     cases = []
+    import loadgen as G
+    yaml, yatiml = L.setup()
     for c in LC.gen_cases(ctx, ctx.budget(500, 12000), mutate_p=0.45, prop='C01'):
+        if c.doc is not None and ctx.rng.random() < 0.3:
+            # tags at arbitrary nodes, keys included
+            doc = c.doc
+            for _ in range(ctx.rng.randint(1, 3)):
+                p = ctx.rng.choice(G.all_paths(doc))
+                tag = ctx.rng.choice(G.TAGS + ['!' + x['name'] for x in c.spec])
+                doc = G.replace_at(doc, p, lambda d: G.with_tag(d, tag) if d[0] in ('s', 'q', 'm') else d)
+            try:
+                c2 = L.build_case(ctx.rng, yaml, yatiml, c.spec, c.doc_type, doc, ('tags',))
+                L.run_case(c2, yaml)
+                c = c2
+            except Exception:  # noqa
+                pass
         cases.append(c)
         LC.record_distribution(ctx, c)
         by = {x['name']: x for x in c.spec}
@@ -52,7 +67,6 @@ def explore(ctx):
 
 
 def search(ctx, broken):
-    ctx.tier = 'thorough'
     explore(ctx)
 
 
